@@ -252,6 +252,100 @@ def run_case(seed):
     return out
 
 
+def builtin_chain_case(seed):
+    """the pipeline the property names, with a BUILT-IN recipe: cook a thermochemical field keeping temperature and some
+    mass fractions, then combine the cooked plotfile back into the original.  The cooked plotfile holds the kept
+    fields bit for bit (cells without a state included) and the Cantera property; the combined one the original
+    fields unchanged plus the new one; both are accepted by taste."""
+    from amr_kitchen import PlotfileCooker
+    from amr_kitchen.chef import Chef
+    from amr_kitchen.combine import combine
+    rng = random.Random(seed)
+    nprng = np.random.default_rng(seed)
+    out = dict(evals=0, keys=[core.khash(seed, 'builtin-chain')], dist={}, samples=[], violations=[], disagreements=[])
+    pf, fields, gas, sp, covered, half = c11.thermo_plotfile(seed, rng, nprng)
+    keys = list(fields)
+    fidx = {k: i for i, k in enumerate(keys)}
+    root = core.scratch_dir(f"c14b_{seed}")
+    os.makedirs(root)
+    path = os.path.join(root, 'plt00000')
+    diskimg.write_image(diskimg.image_of(pf), path)
+    recipe = rng.choice(['ENT', 'HRR', 'SDi'])
+    species = rng.sample(sp, 2) if recipe == 'SDi' else None
+    sp_idx = [sp.index(x) for x in species] if species else []
+    new_names = [f"{c11.COOKBOOK[recipe][1]}({x})" for x in species] if species else [c11.COOKBOOK[recipe][1]]
+    kept_names = ['temp', 'Y(O2)'] + rng.sample([k for k in keys if k not in ('temp', 'Y(O2)')], 2)
+    rng.shuffle(kept_names)
+    keep_ids = [fidx[x] for x in kept_names]
+    pressure = rng.choice([0.5, 1.0, 4.0])
+    serial = rng.random() < 0.5
+    out['dist'][f'case=built-in recipe chain ({recipe})'] = 1
+    out['dist'][f"cells without a state={'yes' if covered else 'no'}"] = 1
+    desc = dict(seed=seed, case_fn='builtin_chain_case', chain=['chef ' + recipe, 'combine with the original'], kept_fields=kept_names,
+                species=species, pressure_atm=pressure, serial=serial, fields=keys, meta=pf.meta)
+    cooked = os.path.join(root, 'cooked')
+    res = core.outcome(lambda: Chef(plotfile=path, recipe=recipe, outfile=cooked, species=species, mech=c11.MECH, pressure=pressure,
+                                    kept_fields=' '.join(kept_names), serial=serial).cook())
+    out['evals'] += 1
+
+    def recipe_fn(fi, box):
+        return c11.builtin_expected(gas, box, keys, recipe, sp_idx, [], pressure)
+    bad = None
+    if res[0] != 'ok':
+        bad = 'hop 0 (chef, built-in recipe) raised: ' + res[1]
+    else:
+        try:
+            oc1 = oracle.contents_of_image(oracle.read_image(cooked))
+            bad = c11.check_contents(oc1, pf, keys, keep_ids, new_names, recipe_fn, fidx, new_rtol=1e-9)
+            bad = bad and 'hop 0 (chef, built-in recipe): ' + bad
+        except (ValueError, IndexError, KeyError) as e:
+            bad = f'hop 0 (chef, built-in recipe): output is not a well-formed plotfile: {e}'
+        if not bad:
+            v, detail = tc.impl_taste(cooked, None, (True, True, False, True), True)
+            if v != 'good':
+                bad = f'hop 0: validation does not accept the cooked plotfile: {v} {detail}'
+    if bad:
+        out['violations'].append(dict(desc, kind='wrong-output', what=bad))
+        return out
+    comb = os.path.join(root, 'combined')
+    res = core.outcome(lambda: combine(PlotfileCooker(path), PlotfileCooker(cooked), pltout=comb))
+    out['evals'] += 1
+    nk = len(keep_ids)
+    if res[0] != 'ok':
+        bad = 'hop 1 (combine with the original) raised on a tool-written input: ' + res[1]
+    else:
+        try:
+            oc2 = oracle.contents_of_image(oracle.read_image(comb))
+            if oc2['fields'] != keys + new_names:
+                bad = f"hop 1: fields {oc2['fields']} instead of the original fields plus {new_names}"
+            for lv in range(pf.nlevels):
+                if bad:
+                    break
+                lev, o1, o2 = pf.levels[lv], oc1['levels'][lv], oc2['levels'][lv]
+                if o2['boxes'] != lev.boxes:
+                    bad = f"hop 1: level {lv}: boxes differ from the original's"
+                    break
+                for b, ((lo, hi), data) in enumerate(zip(o2['boxes'], o2['data'])):
+                    if data[..., :len(keys)].tobytes(order='F') != np.asarray(lev.data[b], dtype='<f8').tobytes(order='F'):
+                        bad = f"hop 1: level {lv} box {lo}-{hi}: the original fields are not unchanged"
+                        break
+                    b1 = o1['boxes'].index((lo, hi))
+                    if data[..., len(keys):].tobytes(order='F') != np.asarray(o1['data'][b1][..., nk:], dtype='<f8').tobytes(order='F'):
+                        bad = f"hop 1: level {lv} box {lo}-{hi}: the cooked field is not the one chef wrote"
+                        break
+        except (ValueError, IndexError, KeyError) as e:
+            bad = f'hop 1: output is not a well-formed plotfile: {e}'
+        if not bad:
+            v, detail = tc.impl_taste(comb, None, (True, True, False, True), True)
+            if v != 'good':
+                bad = f'hop 1: validation does not accept the combined plotfile: {v} {detail}'
+    if bad:
+        out['violations'].append(dict(desc, kind='wrong-output', what=bad))
+    elif not out['samples']:
+        out['samples'].append(dict(desc, final_fields=keys + new_names))
+    return out
+
+
 def _with_layout(rng, pf):
     """second_plotfile deep-copies levels incl. their file layout: give the pure contents one"""
     p = copy.copy(pf)
@@ -277,6 +371,8 @@ def run(tier, seed):
     cases = [seed * 100000 + 14000 + i for i in range(ncases)]
     for r in core.run_cases(run_case, core.with_corpus(PID, cases)):
         rep.merge(r)
+    for r in core.run_cases(builtin_chain_case, [seed * 100000 + 14900 + i for i in range(6 if tier == 'quick' else 60)]):
+        rep.merge(r)
     rep.obligation('correspondence: the composition of the extracted writer models (colander, combine, chef), each fed the previous '
                    "model's output image, = the directory written by the tool chain after every hop",
                    not any(v[0].get('kind') == 'model-vs-impl' for v in rep.violations))
@@ -294,7 +390,7 @@ def run(tier, seed):
 
 def replay(doc):
     core.worker_init(core.REPO, quiet=False)
-    r = run_case(doc['seed'])
+    r = builtin_chain_case(doc['seed']) if doc.get('case_fn') == 'builtin_chain_case' else run_case(doc['seed'])
     bad = r['violations'] + r['disagreements']
     for v in bad:
         print('REPLAY:', v.get('what'))
